@@ -141,6 +141,7 @@ class State(object):
         s.live_heap = 0
         s.peak_heap = 0
         s.switch = False
+        s.watch = {}         # object base -> [lo, hi, set(written offsets), tag]
 
     def fork(s):
         n = State.__new__(State)
@@ -173,6 +174,7 @@ class State(object):
         n.live_heap = s.live_heap
         n.peak_heap = s.peak_heap
         n.switch = s.switch
+        n.watch = {k: [v[0], v[1], set(v[2]), v[3]] for k, v in s.watch.items()}
         return n
 
     # ---- objects
@@ -327,6 +329,9 @@ class Executor(object):
         s.hooks = {}
         s.stop_on_assert = False
         s.reached = {}
+        s.on_path_end = None
+        s.keep_states = True
+        s.tape = None
         import models as MD
         MD.install(s)
         if models:
@@ -392,6 +397,8 @@ class Executor(object):
     def finish(s, st, status, detail):
         if s.verbose:
             print('  path end: %s %s (steps %d, pc %d)' % (status, detail, st.steps, len(st.pc)), file=sys.stderr)
+        if s.on_path_end is not None and status in ('ok', 'exit'):
+            s.on_path_end(s, st, status)
         s.results.append(PathResult(status, detail, st))
         if status not in ('ok', 'assume_false', 'exit'):
             if status in ('limit', 'unsupported', 'enum_limit'):
@@ -503,7 +510,33 @@ class Executor(object):
         v2 = st.simp(v)
         if type(v2) is not E:
             return v2
+        v2 = s.pin_stale(st, v2, what)
+        if type(v2) is not E:
+            return v2
         s.concretize(st, v2, what)
+
+    def pin_stale(s, st, e, what):
+        """values the library is supposed to derive itself (harness inputs named stale:*) must not steer
+        control flow or extents; report once and pin them to one witness value so the path stays single"""
+        if type(e) is not E:
+            return e
+        sv = [v for v in X.free_vars(e) if v.a[0].startswith('stale:')]
+        if not sv:
+            return e
+        m = s.model_for(st)
+        if m is None:
+            raise PathEnd('assume_false', '')
+        for v in sv:
+            nm = v.a[0].split('#')[0][6:]
+            s.violations.append(Violation('stale_dependence', '%s depends on the caller-visible size/length field '
+                                          '"%s" that the library is expected to derive itself (in %s)' % (
+                                              what, nm, s.where(st).split(' <- ')[0]),
+                                          m, list(st.inputs), s.where(st)))
+            val = m.get(v.a[0], 0) & ((1 << v.w) - 1)
+            st.pc.append(X.eq(v, val, v.w))
+            st.sub[v] = val
+        st.submemo = {}
+        return st.simp(e)
 
     def atoms(s, e, out):
         if type(e) is not E:
@@ -567,6 +600,9 @@ class Executor(object):
         c = st.simp(c)
         if type(c) is not E:
             return bool(c), None
+        c = s.pin_stale(st, c, 'a branch')
+        if type(c) is not E:
+            return bool(c), None
         nc = X.lnot(c)
         if st.model is not None:
             mv = X.evaluate(c, st.model)
@@ -627,6 +663,10 @@ class Executor(object):
                     if o.owner != st.id:
                         o = o.clone(st.id)
                         st.objs[o.base] = o
+                if write and st.watch:
+                    w = st.watch.get(o.base)
+                    if w is not None:
+                        w[2].update(range(off, off + n))
                 if s.trace_mem is not None:
                     s.trace_mem(st, o, off, n, write)
                 return o, off
@@ -726,6 +766,39 @@ class Executor(object):
             return
         o, off = s.locate(st, addr, n, True)
         o.data[off:off + n] = cells
+
+    def copy_len(s, st, dst, src, n):
+        """length operand of a copy: if symbolic, first check that it cannot exceed either object
+        (a violation with a model if it can), then enumerate the in-bounds values"""
+        if type(n) is E:
+            n = st.simp(n)
+        if type(n) is E:
+            n = s.pin_stale(st, n, 'a copy length')
+        if type(n) is not E:
+            return n
+        lim = None
+        for p in (dst, src):
+            p = st.simp(p) if type(p) is E else p
+            if type(p) is E:
+                continue
+            o = st.find(p)
+            if o is not None:
+                room = o.base + o.size - p
+                lim = room if lim is None else min(lim, room)
+        if lim is not None:
+            over = X.ult(lim, n, 64)
+            ok, m = s.solver.check(st.pc, (over,))
+            if ok:
+                s.violations.append(Violation('memory', 'copy of a symbolic number of bytes can run past the end of '
+                                              'an object (%d bytes available, e.g. length %d) in %s' % (
+                                                  lim, X.evaluate(n, m), s.where(st).split(' <- ')[0]),
+                                              m, list(st.inputs), s.where(st)))
+                ok2, m2 = s.solver.check(st.pc, (X.lnot(over),))
+                if not ok2:
+                    raise PathEnd('exit', 'copy always out of bounds')
+                st.pc.append(X.lnot(over))
+                st.model = m2
+        return s.need_int(st, n, 'copy length')
 
     def cstring(s, st, addr, maxlen=4096):
         if type(addr) is E:
@@ -1164,7 +1237,7 @@ class Executor(object):
 
     def intrinsic(s, st, th, fr, name, av):
         if name.startswith('@llvm.memcpy') or name.startswith('@llvm.memmove'):
-            n = s.need_int(st, av[2], 'memcpy length')
+            n = s.copy_len(st, av[0], av[1], av[2])
             if n:
                 cells = s.read_cells(st, av[1], n)
                 s.write_cells(st, av[0], list(cells))
@@ -1316,6 +1389,8 @@ class Executor(object):
         o = st.find(tinfo)
         if o is not None:
             nm = o.name
+        else:
+            nm = s.prog.func_by_addr(tinfo) or ''
         raise PathEnd('uncaught_exception', 'exception of type %s left thread %s' % (nm, th.name or th.tid))
 
     def i_resume(s, st, th, fr, ins):
